@@ -727,6 +727,7 @@ func semTree(depth int) *qt {
 
 func genSem(n int) {
 	for i := 0; i < n; i++ {
+		newPalette()
 		t := semTree(rng.Intn(4))
 		if rng.Intn(4) == 0 {
 			t = addPars(t, 0.2)
